@@ -75,16 +75,24 @@ def inm_returns(ev, env):
 def mk_file_response(file_, iface):
     cls = file_ + ":Files"
 
+    def decided_for(ev):
+        """ghost fields on the response object: what the decision was taken for (the arguments of file_response)"""
+        sr = ev.st.obj(ev.frame.lookup("stat_result")).fields
+        return {"g_path": ev.frame.lookup("filepath"), "g_inm": ev.frame.lookup("if_none_match"),
+                "g_ims": ev.frame.lookup("if_modified_since"), "g_mtime": sr["st_mtime"], "g_size": sr["st_size"],
+                "g_ctime": sr["st_ctime"]}
+
     def response_ctor(ev, args, kwargs, node):
         st = ev.st
         return st.alloc(Obj(file_.replace("staticfiles", "responses") + ":Response",
-                            {"status_code": args[0], "kind": VInt(304), "headers": st.fresh(c02.MH_T, "r304.headers")}))
+                            dict({"status_code": args[0], "kind": VInt(304), "headers": st.fresh(c02.MH_T, "r304.headers")},
+                                 **decided_for(ev))))
 
     def fileresponse_ctor(ev, args, kwargs, node):
         st = ev.st
         return st.alloc(Obj(file_.replace("staticfiles", "responses") + ":FileResponse",
-                            {"status_code": VInt(200), "kind": VInt(200), "filepath": args[0], "stat_result": kwargs["stat_result"],
-                             "headers": st.fresh(c02.MH_T, "rfile.headers")}))
+                            dict({"status_code": VInt(200), "kind": VInt(200), "filepath": args[0], "stat_result": kwargs["stat_result"],
+                                  "headers": st.fresh(c02.MH_T, "rfile.headers")}, **decided_for(ev))))
 
     def set_headers_stub(ev, args, kwargs, node):
         g = ev.st.obj(ev.st.ghost["fx"])
@@ -96,7 +104,10 @@ def mk_file_response(file_, iface):
         id=iface + ".Files.file_response", file=file_, qualname="Files.file_response", props=["C14", "C04"],
         params={"self": ObjT(cls), "filepath": Str, "stat_result": STAT_T, "if_none_match": Str, "if_modified_since": Str},
         # at call sites: an abstract response with the decision (`kind` 304 / 200) and, for 200, the file it will open
-        returns=ObjT(file_.replace("staticfiles", "responses") + ":Response", kind=Int, filepath=Str),
+        # (g_*: ghost fields - the arguments the decision was taken for; the applications' contracts tie them to the request
+        # and to what os.stat returned)
+        returns=ObjT(file_.replace("staticfiles", "responses") + ":Response", kind=Int, filepath=Str, g_path=Str, g_inm=Str, g_ims=Str,
+                     g_mtime=FLOAT, g_size=Int, g_ctime=FLOAT),
         ghosts={"fx": ObjT("FxGhost", n_set_headers=Int), "pieces": List(Str)},
         requires=["fx.n_set_headers == 0"],
         defs=DEFS,
@@ -112,6 +123,9 @@ def mk_file_response(file_, iface):
                         "(if_modified_since != '' and date_parses(if_modified_since) and "
                         "floor_int(stat_result.st_ctime) <= floor_int(dt_timestamp(parsed_date(if_modified_since))))))",
             "file": "implies(result.kind != 304, result.kind == 200 and result.filepath == filepath)",
+            "decided_for": "result.g_path == filepath and result.g_inm == if_none_match and result.g_ims == if_modified_since and "
+                           "result.g_mtime == stat_result.st_mtime and result.g_size == stat_result.st_size and "
+                           "result.g_ctime == stat_result.st_ctime",
             # cache headers on BOTH outcomes (also part of C04: the two interfaces must agree)
             "cache_headers": "fx.n_set_headers == 1",
         },
